@@ -516,3 +516,45 @@ func vRacePair(disp *cmdDispatcher, c1, c2 *clientState, a, b int, am, bm bool) 
 	<-done
 	<-done
 }
+
+// vDeadlockPair runs two command loops concurrently and reports whether
+// both finished; a loop that stops making progress for 5 s is a deadlock.
+func vDeadlockPair(disp *cmdDispatcher, c1, c2 *clientState, a, b int, am, bm bool) bool {
+	var progress [2]int64
+	run := func(c *clientState, i int, inMulti bool, slot int, done chan struct{}) {
+		defer func() { recover(); done <- struct{}{} }()
+		for k := 0; k < 1500; k++ {
+			if inMulti && vSessionCommands[i][0] != "MULTI" {
+				vCmd(c, "MULTI")
+				vCmd(c, vSessionCommands[i]...)
+				if c.cmdQueue != nil {
+					vCmd(c, "EXEC")
+				}
+			} else {
+				vCmd(c, vSessionCommands[i]...)
+				if vSessionCommands[i][0] == "MULTI" {
+					vCmd(c, "DISCARD")
+				}
+			}
+			atomic.AddInt64(&progress[slot], 1)
+		}
+	}
+	done := make(chan struct{}, 2)
+	go run(c1, a, am, 0, done)
+	go run(c2, b, bm, 1, done)
+	finished := 0
+	last := [2]int64{-1, -1}
+	for finished < 2 {
+		select {
+		case <-done:
+			finished++
+		case <-time.After(5 * time.Second):
+			now := [2]int64{atomic.LoadInt64(&progress[0]), atomic.LoadInt64(&progress[1])}
+			if now == last {
+				return false
+			}
+			last = now
+		}
+	}
+	return true
+}
